@@ -12,14 +12,14 @@ from hist import (Edit, c_add, c_branch, c_branch_delete, c_branch_list, c_branc
 COMPONENTS = [b"a", b"b", b"d", b"ad", b"d-old", b"d.c", b"d0", b"d e", b"d(", b"lib", b"lib.go",
               b"lib-old", b"test", b"test.c", b"test-data", b"x+y", b"_u", b"A", "été".encode(),
               b"d)", b"d!", b"sub", b"f1", b"f2", b"out", b"about", b"a.log", b"a.logx", b"n.txt",
-              b"src", b"layout"]
+              b"src", b"layout", b"50%off", b"k%s"]
 # directory/file names one of which is a proper prefix of the other, the extension starting with a byte
 # above '/': they are neighbours in the staging area with nothing between "<x>/..." and "<x><ext>/..."
 PREFIX_PAIRS = [(b"a", b"ad"), (b"a", b"about"), (b"d", b"d0"), (b"lib", b"lib2"), (b"test", b"tests"),
                 (b"src", b"src_old"), (b"f1", b"f10"), (b"x", b"xy"), (b"d", b"dA")]
 PLAIN = [b"a", b"b", b"c", b"d", b"e", b"f1", b"f2", b"sub", b"lib", b"src"]
 
-BRANCHES = [b"dev", b"feat", b"a", b"ab", b"a-b", b"a.b", b"b", b"main2", b"x_1", b"Z", b"rel.1", b"m"]
+BRANCHES = [b"dev", b"feat", b"a", b"ab", b"a-b", b"a.b", b"b", b"main2", b"x_1", b"Z", b"rel.1", b"m", b".wip", b"-d", b"%s"]
 HOSTILE_BRANCHES = [b"../../HEAD", b"a/b", b"..", b".", b"a: b", b"", b"x\\y", b"../x", b"refs/heads/q",
                     b"a\nx y z", b"t\tab", b"nl\n", b"q\rr"]
 
